@@ -1314,7 +1314,7 @@ pub fn run(tier: &str, deadline: Instant) -> (Vec<Violation>, JournalStats) {
 /// Which journal scenarios also get a full exploration from their restored states.
 fn restart_exploration_wanted(name: &str, quick: bool) -> bool {
     if quick {
-        matches!(name, "journal-life" | "journal-kill" | "journal-open" | "journal-cancel")
+        matches!(name, "journal-life" | "journal-kill" | "journal-open" | "journal-cancel" | "journal-maxfails-deps")
     } else {
         !name.starts_with("journal-grid-") && !name.contains("-w2-")
     }
@@ -1381,11 +1381,27 @@ pub fn run_with(tier: &str, deadline: Instant, restart_props: &[crate::sim::moni
         stats.journals += journals.len() as u64;
         // ---- exploration from restored states ----
         if (!restart_props.is_empty() || check_panics) && restart_exploration_wanted(&sc.name, quick) {
-            let chosen = journals
-                .iter()
-                .max_by(|a, b| a.0.len().cmp(&b.0.len()).then_with(|| b.0.cmp(&a.0)))
-                .cloned();
-            if let Some((_, history)) = chosen {
+            // one journal per distinct set of record kinds (a failure, an abort, a cancel, a lost
+            // worker, ...): the longest one of each set (first in the order of its record tags among
+            // equally long ones); a prefix (by record tags) is explored once
+            let kind_set = |tags: &Vec<String>| -> std::collections::BTreeSet<String> {
+                tags.iter().map(|t| t.split('(').next().unwrap_or("").to_string()).collect()
+            };
+            let mut by_kinds: std::collections::BTreeMap<std::collections::BTreeSet<String>, (Vec<String>, Vec<Ev>)> =
+                std::collections::BTreeMap::new();
+            for j in &journals {
+                let e = by_kinds.entry(kind_set(&j.0)).or_insert_with(|| j.clone());
+                if j.0.len().cmp(&e.0.len()).then_with(|| e.0.cmp(&j.0)) == std::cmp::Ordering::Greater {
+                    *e = j.clone();
+                }
+            }
+            let mut chosen_all: Vec<(Vec<String>, Vec<Ev>)> = by_kinds.into_values().collect();
+            chosen_all.sort_by(|a, b| b.0.len().cmp(&a.0.len()).then_with(|| a.0.cmp(&b.0)));
+            let mut seen_restart_prefixes: HashSet<Vec<String>> = HashSet::new();
+            let mut n_starts = 0u64;
+            let mut n_records = 0usize;
+            for (tags, history) in chosen_all {
+
                 let sc_rc = Rc::new(sc.clone());
                 if let Ok(sys) = replay_plain(&sc_rc, &history) {
                     let records = sys.journal_records.clone();
@@ -1395,11 +1411,14 @@ pub fn run_with(tier: &str, deadline: Instant, restart_props: &[crate::sim::moni
                     let full = scratch.path.join("full.journal");
                     let offsets = write_journal(&full, &records);
                     let bytes = std::fs::read(&full).unwrap_or_default();
-                    let mut n_starts = 0u64;
+                    n_records = n_records.max(records.len());
                     for k in 1..=records.len() {
                         if Instant::now() > deadline {
                             stats.capped = true;
                             break;
+                        }
+                        if k <= tags.len() && !seen_restart_prefixes.insert(tags[..k].to_vec()) {
+                            continue;
                         }
                         let prefix = &bytes[..offsets[k] as usize];
                         // only prefixes the real restore accepts (anything else is the boundary check's business)
@@ -1448,9 +1467,9 @@ pub fn run_with(tier: &str, deadline: Instant, restart_props: &[crate::sim::moni
                             }
                         }
                     }
-                    stats.per_scenario.push(json!({"scenario": format!("{}+restart", sc.name), "restored_starts_explored": n_starts, "journal_records": records.len()}));
                 }
             }
+            stats.per_scenario.push(json!({"scenario": format!("{}+restart", sc.name), "restored_starts_explored": n_starts, "longest_journal_records": n_records}));
         }
         let seen_prefixes: Arc<Mutex<HashSet<Vec<String>>>> = Arc::new(Mutex::new(HashSet::new()));
         let work = Arc::new(Mutex::new(journals));
